@@ -56,6 +56,10 @@ def cases(tier, seed, shard, nshards):
                         if started:
                             ops.insert(at, ["close", rng.choice(started)])
             spec = {"tool": "tee", "srcs": [ks], "fns": [], "params": {"n": nchild}, "ops": ops}
+            if rng.random() < 0.15:
+                # plain values incl. None / falsy ones pass through the buffers like anything else
+                spec["raw"] = True
+                spec["srcs"] = [[rng.choice([None, None, 0, False, "", 1, ["T"]]) for _ in ks]]
         else:
             spec = gen.iter_spec(rng, name)
         yield {"spec": spec, "flav": rng.choice(FLAVS)}
